@@ -213,6 +213,11 @@ smtproute(const char *remhost, const size_t reml, unsigned int *targetport)
 	*targetport = 25;
 	expect_tls = false;
 
+	/* check if a separate key for the default client certificate exists,
+	 * a route that names a certificate or key will override this */
+	if (faccessat(controldir_fd, "clientkey.pem", R_OK, 0) == 0)
+		clientkeyname = "control/clientkey.pem";
+
 	if (dirfd >= 0) {
 		char fnbuf[DOMAINNAME_MAX + 2];
 		const char *fn = remhost;
@@ -355,10 +360,6 @@ smtproute(const char *remhost, const size_t reml, unsigned int *targetport)
 			errno = 0;
 			return mx;
 		}
-	} else {
-		/* check if default client certificate exists */
-		if (faccessat(controldir_fd, "clientkey.pem", R_OK, 0) == 0)
-			clientkeyname = "control/clientkey.pem";
 	}
 
 	char **smtproutes;
